@@ -14,7 +14,14 @@ from pyvc.sym import SArr, SymReal
 
 MODS = ("glotaran.parameter.parameter", "glotaran.parameter.parameters", "glotaran.parameter.parameter_history")
 
-LABELS = ["g.a", "g.b", "h.1", "k.x.2", "m"]
+LABEL_SETS = {
+    "plain": ["g.a", "g.b", "h.1", "k.x.2", "m"],
+    # labels that are proper prefixes of one another (`$k.1` is a substring of `$k.10`): references must be resolved by
+    # whole labels, in either direction of the dependency order
+    "prefix_up": ["k.1", "k.10", "k.100", "k.1000", "k.10000"],
+    "prefix_down": ["k.10000", "k.1000", "k.100", "k.10", "k.1"],
+}
+LABELS = LABEL_SETS["plain"]
 
 FORMS1 = [
     ("${0} * 2", lambda x: x * 2),
@@ -67,6 +74,9 @@ class Expressions(Contract):
                 for order in orders:
                     k += 1
                     yield {"n": n, "deps": g, "order": order, "form": k % 3}
+                    if n == 3:
+                        for labs in ("prefix_up", "prefix_down"):
+                            yield {"n": n, "deps": g, "order": order, "form": k % 3, "labels": labs}
         if tier == "quick":
             # diamonds of expression parameters: an expression referencing two expression parameters one of
             # which references the other, both orders of appearance, every declaration order
@@ -99,17 +109,18 @@ class Expressions(Contract):
         new = {i: S.real(f"n_{i}") for i in range(n)}
         stale = {i: S.real(f"stale_{i}") for i in range(n)}
         pars = {}
+        LAB = LABEL_SETS[case.get("labels", "plain")]
         for i in case["order"]:
             d = case["deps"][i]
-            lab = LABELS[i]
+            lab = LAB[i]
             if not d:
                 pars[lab] = Parameter(label=lab, value=base[i])
             else:
                 form = FORMS1[(case["form"] + i) % 3][0] if len(d) == 1 else FORMS2[(case["form"] + i) % 3][0]
-                expr = form.format(*[LABELS[j] for j in d]).replace("${", "$").replace("}", "")
+                expr = form.format(*[LAB[j] for j in d]).replace("${", "$").replace("}", "")
                 expr = form
                 for pos, j in enumerate(d):
-                    expr = expr.replace("${" + str(pos) + "}", "$" + LABELS[j])
+                    expr = expr.replace("${" + str(pos) + "}", "$" + LAB[j])
                 # expression parameters start with an arbitrary (stale) value
                 pars[lab] = Parameter(label=lab, value=stale[i], expression=expr)
         return {"pars": pars, "base": base, "new": new}
@@ -119,21 +130,22 @@ class Expressions(Contract):
 
         n = case["n"]
         P = Parameters(inp["pars"])
-        snap = lambda Q: {i: Q.get(LABELS[i]).value for i in range(n)}  # noqa: E731
+        LAB = LABEL_SETS[case.get("labels", "plain")]
+        snap = lambda Q: {i: Q.get(LAB[i]).value for i in range(n)}  # noqa: E731
         after_init = snap(P)
         P.update_parameter_expression()
         after_second = snap(P)
         C = P.copy()
         after_copy = snap(C)
         free = [i for i in range(n) if not case["deps"][i]]
-        labels = [LABELS[i] for i in case["order"] if i in free]
-        arr = np.array([inp["new"][LABELS.index(l)] for l in labels], dtype=object if S.symbolic else float)
+        labels = [LAB[i] for i in case["order"] if i in free]
+        arr = np.array([inp["new"][LAB.index(l)] for l in labels], dtype=object if S.symbolic else float)
         P.set_from_label_and_value_arrays(labels, arr.view(SArr) if S.symbolic else arr)
         after_set = snap(P)
         _, values, _, _ = P.get_label_value_and_bounds_arrays()
-        exported = {LABELS.index(p.label): values[k] for k, p in enumerate(P.all())}
+        exported = {LAB.index(p.label): values[k] for k, p in enumerate(P.all())}
         copy_untouched = snap(C)
-        return {"init": after_init, "second": after_second, "copy": after_copy, "set": after_set, "exported": exported, "copy_after_set": copy_untouched, "vary": {i: P.get(LABELS[i]).vary for i in range(n)}}
+        return {"init": after_init, "second": after_second, "copy": after_copy, "set": after_set, "exported": exported, "copy_after_set": copy_untouched, "vary": {i: P.get(LAB[i]).vary for i in range(n)}}
 
     def observe(self, out):
         return out if isinstance(out, Raised) else None
